@@ -37,6 +37,10 @@ def claims_summary_checked(rule):
             v = it.load(st, jwt.loc, f) if isinstance(jwt, Ref) else None
             rule.obligations += 1
             if not isinstance(v, Ref) and not (isinstance(v, Term) and it.is_null(st, v) is False):
+                if f == 'claims':
+                    # the summary was validated for a claims object; without one the real function is interpreted (its getters may or
+                    # may not tolerate a missing container: that is for the path rules to see, not for a precondition to assume)
+                    return None
                 rule.v('null-deref', 'claims-precondition:%s' % f,
                        '__verify_claims is called with jwt->%s = %r (it dereferences it unconditionally)' % (f, v), node, it)
         return H.h_verify_claims_summary(it, st, args, node)
